@@ -7,7 +7,7 @@ from ..astutil import src, call_name, method_name, const, stmts_in, target_names
 from ..schema import extract, spec
 from ..guards import constraints_when, VALIDATOR_LOWER
 from ..report import Finding
-from ._family_specs import SPECS
+from ._family_specs import SPECS, HELPERS
 
 
 def check_axioms(R, prog, P, members):
@@ -17,7 +17,7 @@ def check_axioms(R, prog, P, members):
         fi = prog.func(mod, q)
         if (mod, q) not in SPECS:
             raise AnalysisError("no axiom table for %s:%s" % (mod, q))
-        ems = extract(fi)
+        ems = extract(fi, helper=(mod, q) in HELPERS)
         got = {}
         for e in ems:
             got.setdefault(e.key(), e)
